@@ -440,38 +440,41 @@ def check(run, replay_path=None):
         do_replay(run, replay_path)
         return
 
-    # ---- part 1: handle selection
-    cases, variants = cases_of(run, run.pick('Query_h_quick.cfg', 'Query_h.cfg'))
+    # ---- spec -> code: one TLC run enumerates both domains and checks the laws of the reference
+    cases, variants = cases_of(run, run.pick('Query_quick.cfg', 'Query.cfg'))
+    hcases = [c for c in cases if c['kind'] == 'h']
+    tcases = [c for c in cases if c['kind'] in ('s', 't')]
     n_req = run.pick(1 + 8 + 64 + 512, 1 + 11 + 121 + 1331)
     n_var = run.pick(4, 18)
-    if len(cases) != n_req * n_var or len(variants) != n_var:
-        raise MachineryError(f'handle domain: {len(cases)} cases / {len(variants)} variants, expected '
+    if len(hcases) != n_req * n_var or len(variants) != n_var:
+        raise MachineryError(f'handle domain: {len(hcases)} cases / {len(variants)} variants, expected '
                              f'{n_req} x {n_var}')
-    traces, replays, calls = drive_handles(run, cases, variants)
+    n_store = run.pick(8, 46)
+    n_filter = run.pick(4 * 3 * 4 * 4 * 3, 5 * 4 * 4 * 6 * 4)
+    if len(tcases) != n_store * (n_filter + 1) or len(hcases) + len(tcases) != len(cases):
+        raise MachineryError(f'text domain: {len(tcases)} cases, expected {n_store} x ({n_filter} + 1)')
+
+    # ---- part 1: handle selection on real providers
+    traces, replays, calls = drive_handles(run, hcases, variants)
     run.note('handle_cases', {'variants': n_var, 'requests_per_variant': n_req, 'service_calls': calls})
     t = traces[-1]
     i = next(i for i, r in enumerate(t) if r['kind'] == 'q' and r['abs'] == ['cd1', 'c11'])
     run.sample({'variant': t[0]['v'], 'request': t[i]['req'], 'GetMdState': [s['h'] for s in t[i]['md']['resp']],
                 'GetContextStates': [s['h'] for s in t[i]['ctx']['resp']]})
-    judge(run, traces, replays, run.pick(8, 6))
-    evaluations = calls
 
-    # ---- part 2: localized texts
-    cases, _ = cases_of(run, run.pick('Query_t_quick.cfg', 'Query_t.cfg'))
-    n_store = run.pick(8, 46)
-    n_filter = run.pick(4 * 3 * 4 * 4 * 3, 5 * 4 * 4 * 6 * 4)
-    if len(cases) != n_store * (n_filter + 1):
-        raise MachineryError(f'text domain: {len(cases)} cases, expected {n_store} x ({n_filter} + 1)')
-    traces, replays, calls = drive_texts(run, cases)
-    run.note('text_cases', {'stores': n_store, 'filters_per_store': n_filter, 'service_calls': calls})
-    t = next(t for t in traces if t[0]['p']['lg'] == 'ragref')
+    # ---- part 2: localized texts on a real provider
+    ttraces, treplays, tcalls = drive_texts(run, tcases)
+    run.note('text_cases', {'stores': n_store, 'filters_per_store': n_filter, 'service_calls': tcalls})
+    t = next(t for t in ttraces if t[0]['p']['lg'] == 'ragref')
     i = next(i for i, r in enumerate(t) if r['kind'] == 'text' and r['f']['width'] == ['m'] and r['f']['lang'] == []
              and r['f']['ref'] == [] and r['f']['ver'] == [1] and r['f']['lines'] == [])
     run.sample({'store': t[0]['texts'], 'languages': t[0]['langs']['resp'], 'filter': t[i]['f'],
                 'GetLocalizedText': t[i]['a']['resp']})
+
+    # ---- code -> spec: TLC judges every record (quick: one TLC run for everything)
     run.count('rejected_clauses', 0)
-    judge(run, traces, replays, run.pick(8, 8))
-    run.evaluations = evaluations + calls
+    judge(run, traces + ttraces, replays + treplays, run.pick(100, 8))
+    run.evaluations = calls + tcalls
     run.note('exhaustive', True)
     run.assumptions += [
         'provider option contextstates_in_getmdib stays at its default (True): GetMdState answers context states',
